@@ -405,7 +405,11 @@ func accessPath(v ssa.Value, getters map[string]string, depth int) string {
 				return b + "." + fld
 			}
 		}
-	case *ssa.Alloc, *ssa.Phi, *ssa.MakeClosure:
+		// any other call result is an immutable SSA value: usable as a path root
+		return x.Name()
+	case *ssa.Extract, *ssa.Phi, *ssa.Lookup, *ssa.TypeAssert, *ssa.Next:
+		return v.Name()
+	case *ssa.Alloc, *ssa.MakeClosure:
 	}
 	return ""
 }
